@@ -16,6 +16,12 @@ import math
 
 ID = 'C14'
 
+def nabs(x):
+    """abs() for tolerance tests: a NaN counts as an infinite difference (a result that is not a number equals nothing)"""
+    x = abs(x)
+    return float('inf') if x != x else x
+
+
 MANIFEST = dict(
     technique='explicit-state exploration of all add_hypothese histories on the real confusion-network code; semantic language-inclusion and weight-conservation oracles per transition',
     text='Bounded exhaustive: every history of up to 3 (quick) / 4 (thorough) add_hypothese events over 15 strings x 2 scores (27 930 / 837 930 histories), each step checked for language inclusion (decided by subset construction, not by re-running the algorithm), readability of the new hypothesis in order, conservation of weight through an order-preserving embedding, and the final network for normalisation, complete/sorted path enumeration and single-hypothesis read-back; produce_cn_from_boh on bags with and without LM scores. Added sub-sweeps: one empty start list shared by all cases of a worker, histories containing hypotheses with scores 1e-18 and 1e-200 (absorbed by 1.0 / underflowing products), and hypotheses of 130-300 symbols. Normalisation must keep every arc (weights down to 1e-310 next to 1.0); hypotheses with single, double, leading and trailing spaces.',
@@ -169,19 +175,19 @@ def embedding_ok(before, after, score, transcript):
             extra = list(set(a) - set(b))
             if len(extra) != 1 or set(b) - set(a):
                 return False
-            if abs(a[extra[0]] - score) > EPS:
+            if nabs(a[extra[0]] - score) > EPS:
                 return False
             return all(abs(a[k] - b[k]) <= EPS for k in b)
         if set(b) - set(a):
             return False
-        diffs = [k for k in b if abs(a[k] - b[k]) > EPS]
+        diffs = [k for k in b if nabs(a[k] - b[k]) > EPS]
         if not diffs and score <= EPS:
             return True                     # a vanishing score is absorbed by the float sum; nothing observable has to change
         return len(diffs) == 1 and abs(a[diffs[0]] - b[diffs[0]] - score) <= EPS
 
     def is_new(a):
         syms = [k for k in a if k is not None]
-        return None in a and len(syms) == 1 and abs(a[syms[0]] - score) <= EPS and a[None] > 0 and syms[0] in transcript
+        return None in a and len(syms) == 1 and nabs(a[syms[0]] - score) <= EPS and a[None] > 0 and syms[0] in transcript
 
     # DP: ok[i][j] = before[i:] embeds into after[j:]
     ok = [[False] * (m + 2) for _ in range(n + 2)]
@@ -232,7 +238,7 @@ def check_boh(ctx):
                     cnn = produce_cn_from_boh(boh, visual_weight=vw, lm_weight=lw, normalize=True)
                     ctx.executed()
                     for pos in cnn:
-                        if abs(sum(pos.values()) - 1) > EPS:
+                        if nabs(sum(pos.values()) - 1) > EPS:
                             ctx.violation('normalised-sums-to-one', f'{ID}/produce_cn_from_boh/not-normalised', f'{cnn}', {'boh': True})
                     for n0, h in enumerate(hs):
                         if not member(cnn, h):
@@ -332,7 +338,7 @@ def check_history(case, ctx, hist):
     fin = normalize_cn(copy.deepcopy(after))
     ctx.executed()
     for pos in fin:
-        if abs(sum(pos.values()) - 1) > EPS:
+        if nabs(sum(pos.values()) - 1) > EPS:
             ctx.violation('normalised-sums-to-one', f'{ID}/normalize/position-sum', f'{pos} in {fin}; {desc}')
             break
     # normalisation rescales the arcs of a position, it neither drops nor adds any (every hypothesis stays a path of the normalised network)
@@ -365,7 +371,7 @@ def check_history(case, ctx, hist):
                               f'{len(paths)} paths for {n_comb} arc combinations; {fin}')
             elif any(paths[i][1] < paths[i + 1][1] - 1e-12 for i in range(len(paths) - 1)):
                 ctx.violation('paths-sorted', f'{ID}/sorted_cn_paths/order', f'{paths[:6]}')
-            elif abs(sum(p for _, p in paths) - 1) > 1e-9:
+            elif nabs(sum(p for _, p in paths) - 1) > 1e-9:
                 ctx.violation('paths-sum-to-one', f'{ID}/sorted_cn_paths/sum', f'{sum(p for _, p in paths)}')
             ctx.outcome(len(paths))
         elif paths != []:
